@@ -180,9 +180,25 @@ impl KnownFindings {
 // ---------------------------------------------------------------------------
 // one run in a fresh scratch dir
 
-pub fn run_once(engine: &dyn Engine, prop: &str, chooser: Chooser, tag: &str) -> RunOutcome {
+pub fn run_once(engine: &dyn Engine, prop: &str, mut chooser: Chooser, tag: &str) -> RunOutcome {
     let scratch = Scratch::new(tag);
-    engine.run(prop, chooser, &scratch.path)
+    // HashMap iteration orders inside jj are part of the run: their seed is a
+    // recorded choice, and the run executes in a fresh thread so that the
+    // thread-local key counter of std starts from zero.
+    let hash_seed = chooser.choose(1 << 20) as u64;
+    super::rand_seam::set_hash_seed(hash_seed);
+    std::thread::scope(|s| {
+        std::thread::Builder::new()
+            .name("sim-driver".to_string())
+            .stack_size(16 << 20)
+            .spawn_scoped(s, || engine.run(prop, chooser, &scratch.path))
+            .expect("spawn driver")
+            .join()
+            .unwrap_or_else(|_| RunOutcome {
+                harness_error: Some("driver thread panicked".to_string()),
+                ..RunOutcome::default()
+            })
+    })
 }
 
 fn first_relevant<'a>(out: &'a RunOutcome, prop: &str, known: &KnownFindings) -> Option<&'a Violation> {
